@@ -154,6 +154,15 @@ pub fn c15_value(ctx: &mut Ctx, v: &MapVal) {
       }
     }
   }
+  // (a reader that was handed garbage before must still read a good document: state kept between
+  // calls - buffers, arenas - is reset on the error path too)
+  for bad in ["{", "{\"version\":3}", "[1,2", "{\"mappings\":null,\"sources\":[\"a\"]}"] {
+    if let Err(p) = guarded(|| SourceMap::from_json(bad).is_ok()) {
+      fail(ctx, "reader_panic", format!("from_json({bad:?}): {p}"));
+    }
+    let _ = guarded(|| SourceMap::from_slice(bad.as_bytes()).is_ok());
+    let _ = guarded(|| SourceMap::from_reader(bad.as_bytes()).is_ok());
+  }
   // the three readers agree and give every field back
   let exp = expected_after_roundtrip(v);
   let readers: [(&str, Result<Result<SourceMap, String>, String>); 3] = [
